@@ -36,7 +36,7 @@ type c14Case struct {
 
 func (c *c14Case) Key() string { return core.KeyOf(c) }
 
-var c14TitleVals = []string{"str_x", "str_empty", "int0", "int1", "false", "true", "nil", "missing", "str_false", "float64_0", "uint8_0", "float_small", "float_huge", "float_frac", "uint64_max", "int64_min", "float32_third"}
+var c14TitleVals = []string{"str_x", "str_empty", "int0", "int1", "false", "true", "nil", "missing", "str_false", "float64_0", "uint8_0", "float_small", "float_huge", "float_frac", "uint64_max", "int64_min", "float32_third", "ptr_str", "ptr_int7", "ptr_zero", "ptr_true"}
 
 func c14Data() map[string]any {
 	d := map[string]any{"w": "W", "sx": "SX", "cv": "b1 b2", "t": true, "f": false, "one": 1, "zero": 0, "col": "blue", "ss": "color: blue; top: 0", "cnt": 3, "nilv": nil, "lst": []int{1, 2, 3}}
@@ -75,7 +75,7 @@ func (c *c14Case) build() (tpl string, want map[string]string, wantClass []strin
 			truthy = false
 		}
 		if truthy {
-			want["title"] = fmt.Sprint(tv.V)
+			want["title"] = printedForm(tv.V)
 		} else if c.TitleS != "none" {
 			defined = false // falsy binding next to a static attribute of the same name: not stated
 		}
@@ -360,6 +360,82 @@ func (c *c14Case) runReuse(ctx *core.Ctx) {
 	}
 }
 
+// --- ns part: attributes that the parser puts into a namespace inside <svg> (xlink:href, xml:lang)
+// are attributes of their own: a binding replaces the static attribute of its own full name only.
+// Form: the static attributes (plain | ns | both | none), TitleB: the bound ones, Vals[0]: t | f.
+
+func (c *c14Case) runNS(ctx *core.Ctx) {
+	ctx.NonTrivial()
+	truthy := c.Vals[0] == "t"
+	want := map[string]string{}
+	var attrs []string
+	if c.Form == "ns" || c.Form == "both" {
+		attrs = append(attrs, `xlink:href="#sns"`, `xml:lang="en"`)
+		want["xlink:href"], want["xml:lang"] = "#sns", "en"
+	}
+	if c.Form == "plain" || c.Form == "both" {
+		attrs = append(attrs, `href="#spl"`, `lang="de"`)
+		want["href"], want["lang"] = "#spl", "de"
+	}
+	val := map[bool]string{true: "hv", false: "nothing"}[truthy]
+	set := func(name, v string) {
+		if truthy {
+			want[name] = v
+		} else if _, static := want[name]; static {
+			want[name] = "?" // a falsy binding next to a static attribute of the same name: not stated
+		}
+	}
+	if c.TitleB == "plain" || c.TitleB == "both" {
+		attrs = append(attrs, `:href="`+val+`"`, `v-bind:lang="`+val+`"`)
+		set("href", "#b")
+		set("lang", "#b")
+	}
+	if c.TitleB == "ns" || c.TitleB == "both" {
+		attrs = append(attrs, `:xlink:href="`+val+`"`, `:xml:lang="`+val+`"`)
+		set("xlink:href", "#b")
+		set("xml:lang", "#b")
+	}
+	if c.Order == "bf" {
+		for i, j := 0, len(attrs)-1; i < j; i, j = i+1, j-1 {
+			attrs[i], attrs[j] = attrs[j], attrs[i]
+		}
+	}
+	tpl := `<svg><use id="e" ` + strings.Join(attrs, " ") + `></use></svg>`
+	ctx.Eval(1)
+	out, err := renderString(tpl, map[string]any{"hv": "#b"})
+	if err != nil {
+		ctx.Violation("render-error", "ns", c.Form+"/"+c.TitleB, fmt.Sprintf("tpl %q: %v", tpl, err))
+		return
+	}
+	e := htmlcmp.ByID(htmlcmp.Parse(out), "e")
+	if e == nil {
+		ctx.Violation("element-lost", "ns", c.Form+"/"+c.TitleB, fmt.Sprintf("tpl %q out %q", tpl, out))
+		return
+	}
+	got := map[string][]string{}
+	for _, a := range e.Attr {
+		k := a.Key
+		if a.Namespace != "" {
+			k = a.Namespace + ":" + a.Key
+		}
+		if k != "id" {
+			got[k] = append(got[k], a.Val)
+		}
+	}
+	ctx.Outcome(fmt.Sprint(got))
+	for k, vs := range got {
+		w, ok := want[k]
+		if !ok || len(vs) != 1 || (w != "?" && vs[0] != w) {
+			ctx.Violation("attribute-value", "ns/static="+c.Form+"/bound="+c.TitleB, k, fmt.Sprintf("tpl %q: attribute %s has the values %q, want %q (out %q)", tpl, k, vs, w, out))
+		}
+	}
+	for k, w := range want {
+		if _, ok := got[k]; !ok && w != "?" {
+			ctx.Violation("attribute-value", "ns/static="+c.Form+"/bound="+c.TitleB, k+"-missing", fmt.Sprintf("tpl %q: attribute %s=%q is missing (out %q)", tpl, k, w, out))
+		}
+	}
+}
+
 // --- style-values part: static declarations whose values contain semicolons, colons, quotes
 
 var c14StyleStatics = map[string]map[string]string{
@@ -374,6 +450,10 @@ var c14StyleStatics = map[string]map[string]string{
 	// the same property declared more than once (fallback values): every declaration stays, in order
 	`display: -webkit-box; display: flex; margin: 0`:              {"display": "flex", "margin": "0"},
 	`width: 100px; width: calc(100% - 2px); width: min(1px, 2px)`: {"width": "min(1px, 2px)"},
+	// declarations whose text ends like what the bindings write: other properties all the same
+	`--menu-display:none;color:red`:                {"--menu-display": "none", "color": "red"},
+	`x-color:blue;font-size:12px;;max-width:100px`: {"x-color": "blue", "font-size": "12px", "max-width": "100px"},
+	`border-color: blue; top: 0`:                   {"border-color": "blue", "top": "0"},
 }
 
 func (c *c14Case) runStyleValues(ctx *core.Ctx) {
@@ -398,6 +478,9 @@ func (c *c14Case) runStyleValues(ctx *core.Ctx) {
 	case "objdisp": // the bound style sets display itself: v-show still hides
 		attrs += ` :style="{display: 'flex', fontSize: '12px'}"`
 		want["display"], want["font-size"] = "flex", "12px"
+	case "objw": // a property whose declaration is the tail of a static one (max-width:100px)
+		attrs += ` :style="{width: '100px'}"`
+		want["width"] = "100px"
 	case "objzero": // zero is a value
 		attrs += ` :style="{opacity: 0, zIndex: zero, margin: 0.0}"`
 		want["opacity"], want["z-index"], want["margin"] = "0", "0", "0"
@@ -441,7 +524,7 @@ func (c *c14Case) runStyleValues(ctx *core.Ctx) {
 	}
 	outSeq := seq(st)
 	for k, vs := range seq(c.Form) {
-		if (c.StyleB == "obj1" && k == "color") || (c.StyleB == "str" && (k == "color" || k == "top")) || ((c.Show == "f" || c.StyleB == "objdisp") && k == "display") || (c.StyleB == "objzero" && (k == "margin" || k == "opacity" || k == "z-index")) {
+		if (c.StyleB == "obj1" && k == "color") || (c.StyleB == "str" && (k == "color" || k == "top")) || ((c.Show == "f" || c.StyleB == "objdisp") && k == "display") || (c.StyleB == "objzero" && (k == "margin" || k == "opacity" || k == "z-index")) || (c.StyleB == "objw" && k == "width") {
 			continue
 		}
 		if fmt.Sprint(outSeq[k]) != fmt.Sprint(vs) {
@@ -540,6 +623,10 @@ func (c *c14Case) Run(ctx *core.Ctx) {
 	}
 	if c.Part == "reuse" {
 		c.runReuse(ctx)
+		return
+	}
+	if c.Part == "ns" {
+		c.runNS(ctx)
 		return
 	}
 	tpl, want, wantClass, wantStyle, defined, staticOrder := c.build()
@@ -667,13 +754,14 @@ func init() {
 		Rule: "one element carrying every combination of: static / interpolated title x title bound to 17 values of every truthiness and with string forms that have several spellings (exponent notation, extreme integers) (and v-bind:) x static class x 7 bound class forms (string, number, objects with bare/single-quoted/double-quoted/hyphenated/colon-bearing keys and truthy/falsy/nil/undefined values) x static style x 3 bound style forms (camelCase object, custom property object, string) x v-show {none,true,truthy string,false,0} x directive attributes x 4 bracketed attributes (incl. a mustache value) x both source orders; " +
 			"plus static style values containing semicolons, colons and quotes (data URLs, quoted strings) x bound style x v-show; plus a reuse part: 13 element forms (v-show with/without static and bound style, bound/interpolated title, :class object/string, :style over static style, v-if / v-else + v-show, v-html / v-text + v-show, boolean attribute) evaluated for every sequence of <=3 values out of 3 in 7 contexts where one source node is evaluated repeatedly (v-for on a parent, <template v-for>, scoped slot inside a component loop, slot used twice per include, component in a loop, component included repeatedly, successive renders on one engine through Load/Render and Vue.Render), oracle: every instance equals the element rendered alone on a fresh engine; " +
 			"plus an expression part: 22 compound bound expressions (string literals in both quote styles, concatenations that begin and end with a literal, ternaries, comparisons of literals, arithmetic) on :title, :class (with and without static classes), :data-k and v-bind:title, emitted with the value's string form or omitted when falsy; " +
+			"plus a namespace part: static and bound href / lang and xlink:href / xml:lang on an element inside <svg>, every combination, both orders, truthy and falsy: a binding replaces the static attribute of its own full name only, and no attribute is written twice; " +
 			"oracle: reference attribute model (values, class token list, style property map, static order, no directive/internal attribute in the output, bracketed literal). non-trivial = all with defined semantics",
 		Bounds:      map[string]string{"quick": "full product (528k elements)", "thorough": "same"},
 		Assumptions: []string{"a falsy binding next to a static attribute of the same name is unconstrained", "relative order of style declarations and of bound attributes without a static counterpart is C10's subject"},
 		Decode:      core.DecodeAs[c14Case](),
 		Enumerate: func(tier string, emit func(core.Case)) {
 			for st := range c14StyleStatics {
-				for _, sb := range []string{"none", "obj1", "str", "objdisp", "objzero"} {
+				for _, sb := range []string{"none", "obj1", "str", "objdisp", "objzero", "objw"} {
 					for _, sh := range []string{"none", "t", "f"} {
 						emit(&c14Case{Part: "style-values", Form: st, StyleB: sb, Show: sh})
 						emit(&c14Case{Part: "style-values", Form: st, StyleB: sb, Show: sh, Ctx: "interp"})
@@ -685,6 +773,15 @@ func init() {
 					emit(&c14Case{Part: "expr", Form: e.Src, Ctx: attr})
 					if attr == "class" {
 						emit(&c14Case{Part: "expr", Form: e.Src, Ctx: attr, ClassS: true})
+					}
+				}
+			}
+			for _, st := range []string{"none", "plain", "ns", "both"} {
+				for _, b := range []string{"none", "plain", "ns", "both"} {
+					for _, tv := range []string{"t", "f"} {
+						for _, o := range []string{"sf", "bf"} {
+							emit(&c14Case{Part: "ns", Form: st, TitleB: b, Vals: []string{tv}, Order: o})
+						}
 					}
 				}
 			}
